@@ -501,6 +501,8 @@ class Folder(FileSystemItemABC):
 
         def __call__(self, request: RequestFormat, context: Dict) -> bool:
             """Returns True if file exists."""
+            if len(request) < 1:
+                return False  # a request that names no file addresses nothing that exists
             return self.folder.get_file(file_name=request[0]) is not None
 
         @property
@@ -520,6 +522,8 @@ class Folder(FileSystemItemABC):
 
         def __call__(self, request: RequestFormat, context: Dict) -> bool:
             """Returns True if file exists and is not deleted."""
+            if len(request) < 1:
+                return False
             file = self.folder.get_file(file_name=request[0])
             return file is not None and not file.deleted
 
